@@ -26,6 +26,8 @@ func memBase(v ssa.Value) ssa.Value {
 			v = x.X
 		case *ssa.ChangeType:
 			v = x.X
+		case *ssa.ChangeInterface:
+			v = x.X
 		case *ssa.Slice:
 			v = x.X
 		case *ssa.TypeAssert:
@@ -78,6 +80,19 @@ func rulePT2(p *Prog) *RuleResult {
 				}
 				nput++
 				c := fmt.Sprintf("%s|Pool.Put#%d", fname(f), nput)
+				// the value handed back must be of the one type the pool's users assert on Get
+				if g, ok := cc.Args[0].(*ssa.Global); ok {
+					want := poolElemType(p, g)
+					got := putStaticType(cc.Args[1])
+					if want != nil && (got == nil || !types.Identical(want, got)) {
+						gs := "a value whose dynamic type is not fixed (an interface that may hold something else)"
+						if got != nil {
+							gs = typeShort(got)
+						}
+						res.bad(c+"|type", p.ipos(ins), fmt.Sprintf("pool %s hands out %s (every Get asserts that type) but receives %s here: the next Get panics on its type assertion", g.Name(), typeShort(want), gs))
+						continue
+					}
+				}
 				base := memBase(cc.Args[1])
 				same := func(v ssa.Value) bool {
 					bv := memBase(v)
@@ -107,7 +122,7 @@ func rulePT2(p *Prog) *RuleResult {
 						if bad != nil {
 							return
 						}
-						if usesMemory(u, same) {
+						if usesMemory(u, same) || usesObject(u, same) {
 							bad = u
 						}
 					}
@@ -192,6 +207,36 @@ func usesMemory(u ssa.Instruction, same func(ssa.Value) bool) bool {
 	return false
 }
 
+// usesObject: u calls a method on, or passes on, the pooled object itself (a pointer or an interface holding it).
+func usesObject(u ssa.Instruction, same func(ssa.Value) bool) bool {
+	var cc *ssa.CallCommon
+	switch x := u.(type) {
+	case *ssa.Call:
+		cc = &x.Call
+	case *ssa.Go:
+		cc = &x.Call
+	case *ssa.Defer:
+		cc = &x.Call
+	default:
+		return false
+	}
+	if isPoolCall(cc, "Put") {
+		return false
+	}
+	if cc.IsInvoke() && hasPointers(cc.Value.Type()) && same(cc.Value) {
+		return true
+	}
+	for _, a := range cc.Args {
+		if _, isPtr := a.Type().Underlying().(*types.Pointer); isPtr && same(a) {
+			return true
+		}
+		if _, isIface := a.Type().Underlying().(*types.Interface); isIface && same(a) {
+			return true
+		}
+	}
+	return false
+}
+
 // putBeforeReturnOnly: the Put at (b, ii) is followed only by a return (no further work).
 func putBeforeReturnOnly(b *ssa.BasicBlock, ii int) bool {
 	for _, ins := range b.Instrs[ii+1:] {
@@ -255,4 +300,47 @@ func returnsDerived(f *ssa.Function, base ssa.Value, same func(ssa.Value) bool) 
 		}
 	}
 	return ""
+}
+
+// poolElemType: the concrete type that Get sites of global pool g assert (they all agree in this repository).
+func poolElemType(p *Prog, g *ssa.Global) types.Type {
+	var t types.Type
+	for _, f := range p.sourceFns() {
+		for _, b := range f.Blocks {
+			for _, ins := range b.Instrs {
+				c, ok := ins.(*ssa.Call)
+				if !ok || !isPoolCall(&c.Call, "Get") || len(c.Call.Args) == 0 || c.Call.Args[0] != ssa.Value(g) || c.Referrers() == nil {
+					continue
+				}
+				for _, r := range *c.Referrers() {
+					if ta, ok := r.(*ssa.TypeAssert); ok {
+						t = ta.AssertedType
+					}
+				}
+			}
+		}
+	}
+	return t
+}
+
+// putStaticType: the concrete type of the value converted to interface{} for Put, nil if it is not fixed.
+func putStaticType(v ssa.Value) types.Type {
+	switch x := v.(type) {
+	case *ssa.MakeInterface:
+		return x.X.Type()
+	case *ssa.ChangeInterface:
+		// an interface value passed on: fixed only if it was itself made from one concrete type
+		return putStaticType(x.X)
+	case *ssa.Phi:
+		var t types.Type
+		for _, e := range x.Edges {
+			et := putStaticType(e)
+			if et == nil || (t != nil && !types.Identical(t, et)) {
+				return nil
+			}
+			t = et
+		}
+		return t
+	}
+	return nil
 }
